@@ -193,18 +193,21 @@ def run_emu(case, ctx):
             evs += [T.plain(PROBE[ch], 110), T.plain(PROBE_END[ch], 120)]
         evs.append(T.plain("OHe", 130))
         tr = {"streams": [{"loom": "n.0", "pid": 1, "tid": 1, "app": 1, "cpus": [[0, 0]], "require": req, "events": evs}]}
-        d = ctx.newdir()
-        try:
-            T.write_trace(tr, d)
-            r = tools.emu(b, d, ("-l",))
-        finally:
-            ctx.rmdir(d)
         wv = R.parse_version(ws)
         ok = wv is not None and compat(wv, have)
-        if r.kind not in ("ok", "rejected"):
-            raise Violation("emulator crashed on required version %s=%r: %s" % (name, ws, r.brief()))
-        if ok != r.ok:
-            raise Violation("trace requiring %s %s (emulator has %s): %s" % (name, ws, have, "accepted" if r.ok else "rejected: " + r.brief()))
+        # forcing all models on (-a) does not waive the version requirement of a stream
+        for flags in (("-l",), ("-a",), ("-l", "-a")):
+            d = ctx.newdir()
+            try:
+                T.write_trace(tr, d)
+                r = tools.emu(b, d, flags)
+            finally:
+                ctx.rmdir(d)
+            if r.kind not in ("ok", "rejected"):
+                raise Violation("emulator crashed on required version %s=%r: %s" % (name, ws, r.brief()))
+            if ok != r.ok:
+                raise Violation("trace requiring %s %s (emulator has %s) with %s: %s" % (
+                    name, ws, have, " ".join(flags), "accepted" if r.ok else "rejected: " + r.brief()))
         return {"nt": wv != have, "cls": ["emu:version"]}
     if case["mode"] == "multi":
         name = case["model"]
